@@ -46,9 +46,9 @@ func main() {
 	n := flag.Int("n", 300, "number of random scripts")
 	flag.Parse()
 	g := &w1.Gen{R: rand.New(rand.NewSource(*seed))}
-	we := &cf.Writer{Dir: *out, Prefix: "cases_enc", Imports: w1.PrimImports, CaseType: "ecase", MismatchFn: "mismatches_enc", ShardSize: 150}
-	wd := &cf.Writer{Dir: *out, Prefix: "cases_dec", Imports: w1.PrimImports, CaseType: "dcase", MismatchFn: "mismatches_dec", ShardSize: 150}
-	wc := &cf.Writer{Dir: *out, Prefix: "cases_crc", Imports: w1.PrimImports, CaseType: "ccase", MismatchFn: "mismatches_crc", ShardSize: 150}
+	we := w1.NewSizedWriter(*out, "cases_enc", "ecase", "mismatches_enc", 150, 200000)
+	wd := w1.NewSizedWriter(*out, "cases_dec", "dcase", "mismatches_dec", 150, 200000)
+	wc := w1.NewSizedWriter(*out, "cases_crc", "ccase", "mismatches_crc", 150, 200000)
 
 	scripts := w1.BoundaryScripts()
 	nb := len(scripts)
